@@ -136,7 +136,31 @@ func e2ePart(r *ev.Report) {
 				s.WaitQuiet(100*time.Millisecond, 10*time.Second)
 			}
 			s.WaitQuiet(300*time.Millisecond, 20*time.Second)
-			check(s.Output()[m2:], newRows, "after the resize")
+			if check(s.Output()[m2:], newRows, "after the resize") {
+				// a second resize that changes rows and columns in one step
+				rows2, cols2 := newRows+4, cols+9
+				m3 := s.Mark()
+				s.Resize(rows2, cols2)
+				if s.WaitFor(m3, 90*time.Second, func(after string) bool {
+					_, fr := e2e.Frames(after)
+					for _, f := range fr {
+						if len(e2e.Lines(f)) == rows2 {
+							return true
+						}
+					}
+					return false
+				}) {
+					m4 := s.Mark()
+					for i := 0; i < len(keys); i++ {
+						s.Send([]byte{keys[i]})
+						s.WaitQuiet(100*time.Millisecond, 10*time.Second)
+					}
+					s.WaitQuiet(300*time.Millisecond, 20*time.Second)
+					check(s.Output()[m4:], rows2, "after a resize of rows and columns")
+				} else {
+					bad("resize-not-followed", fmt.Sprintf("the terminal changed from %dx%d to %dx%d; no frame of the new height within 90 s", newRows, cols, rows2, cols2))
+				}
+			}
 		}
 		s.Close()
 		if !s.Exited() {
